@@ -475,7 +475,8 @@ def getattr_value(ex, st, o, name, node):
     raise OutsideSubset('attribute {} of {!r}'.format(name, d), node)
 
 
-from .symexec import BoundMethod, Lib, Closure, IterDom, NeedSplit  # noqa: E402
+from .symexec import (BoundMethod, Lib, Closure, IterDom, NeedSplit,  # noqa: E402
+                      PyCallable)
 
 
 # ---------------------------------------------------------------------------
@@ -743,11 +744,16 @@ def comprehension(ex, st, node):
         k = z3.Int(uid('c'))
         idx_assump = z3.And(k >= 0, k < dom.n)
         st.pc.append(idx_assump)
+        saved_ci = st.ghost.get('comp_index')
+        st.ghost['comp_index'] = k
         try:
             ex.assign(gen.target, dom.bind(k), st)
             e = ex.eval(node.elt, st)
         finally:
-            pass
+            if saved_ci is None:
+                st.ghost.pop('comp_index', None)
+            else:
+                st.ghost['comp_index'] = saved_ci
         e = resolve(ex, st, e)
         de = ex.deref(st, e)
         # remove the index assumption again (axioms introduced stay: they are
@@ -756,16 +762,16 @@ def comprehension(ex, st, node):
         if isinstance(de, (Sym, int, float, bool)):
             kk = kind_of(de)
             t = zv(de, kk)
-            return st.alloc(Arr(dom.n, lambda i: z3.substitute(t, (k, i)), kk),
-                            'comp')
+            return st.alloc(Arr(dom.n, lambda i: z3.substitute(t, (k, I(i))),
+                                kk), 'comp')
         if isinstance(de, Arr):
             n_t = de.n
             probe_j = z3.Int(uid('cj'))
             body = de.at(probe_j)
             return st.alloc(LArr(
-                dom.n, lambda i: z3.substitute(n_t, (k, i)),
-                lambda i, j: z3.substitute(body, (k, i), (probe_j, j)), de.k),
-                'comp')
+                dom.n, lambda i: z3.substitute(n_t, (k, I(i))),
+                lambda i, j: z3.substitute(body, (k, I(i)), (probe_j, I(j))),
+                de.k), 'comp')
         raise OutsideSubset('comprehension element {!r}'.format(de), node)
     finally:
         st.env = saved
@@ -820,6 +826,8 @@ def apply(ex, st, f, args, kwargs, node):
         return ref
     if isinstance(f, Closure):
         return ex.call_closure(st, f, args)
+    if isinstance(f, PyCallable):
+        return f.fn(ex, st, args, kwargs, node)
     if isinstance(f, Opaque):
         h = ex.reg.opaque_call
         if h is not None:
